@@ -169,6 +169,11 @@ class InitFlow:
                     defined.update(d2)
                 elif x.get("else_status") in ("exit", "return") and x.get("then_status") not in ("exit", "return"):
                     defined.update(d1)
+                elif inloop:
+                    # inside a loop a conditional write may have happened in an earlier iteration (ping-pong buffers written only
+                    # when a step is taken, read back only when one was): generous, like the loop itself
+                    defined.update(d1)
+                    defined.update(d2)
                 else:
                     for k in d1:
                         if k in d2:
@@ -213,6 +218,14 @@ class InitFlow:
                 continue
             if e == "call":
                 args = x.get("args") or []
+                for a in args:
+                    # a pointer variable that is reassigned in a loop (ping-pong buffers): every object it may designate gets
+                    # the benefit of the doubt -- the callee may write it
+                    if isinstance(a, tuple) and a and a[0] == "var" and len(a) > 2:
+                        for obj_ in self._valsets.get(a[2], ()):
+                            if obj_ in roots:
+                                self._event(roots[obj_], (), "W", first, defined, local_events, x["l"],
+                                            "through pointer variable %s" % a[1], prefix=True)
                 for a in args:
                     # scalar uses inside argument expressions (a[i] passed by value)
                     if a is not None and not self._is_pointer_arg(a):
@@ -369,6 +382,25 @@ class InitFlow:
             self._event(rk, path, "R", first, defined, local_events, line, "element %s" % sym.show(st)[:50])
 
     # ------------------------------------------------------------------ locals of one function
+    _valsets = {}
+
+    @staticmethod
+    def _pointer_value_sets(eff):
+        """{local id: set of terms ever assigned to it}, closed under copies between locals"""
+        direct = {}
+        for x in flat(eff):
+            if x["e"] == "local" and x.get("op") in ("decl", "=") and isinstance(x.get("new", x.get("val")), tuple):
+                direct.setdefault(x["id"], set()).add(x.get("new", x.get("val")))
+        changed = True
+        while changed:
+            changed = False
+            for i, vals in direct.items():
+                for t in list(vals):
+                    if t[0] == "var" and len(t) > 2 and t[2] in direct and not direct[t[2]] <= vals:
+                        vals |= direct[t[2]]
+                        changed = True
+        return direct
+
     def local_objects(self, f):
         """-> list of (object term, record or None, description, line, uninitialised paths) created in f, and the R events"""
         v = self.v
@@ -392,6 +424,7 @@ class InitFlow:
         roots = {o: ("obj", k) for k, o in enumerate(objs)}
         first = {rk: {} for rk in roots.values()}
         events = []
+        self._valsets = self._pointer_value_sets(eff)
         self._extents = {}
         for x in flat(eff):
             if x["e"] == "localarray" and x["lv"] in roots and sym.const_value(x.get("extent")) is not None:
